@@ -75,7 +75,7 @@ theorem step_ent (s : State) (op : Op) (j : Nat) (e : Ent) (h : s.ents[j]? = som
           · exact ⟨e, h, .same⟩
           · refine ⟨e, ?_, .same⟩
             simp only [List.getElem?_append_left hj, h]
-  | call e0 via m inp =>
+  | call e0 via m o =>
     simp only [step]
     split
     · exact ⟨e, h, .same⟩
@@ -89,33 +89,31 @@ theorem step_ent (s : State) (op : Op) (j : Nat) (e : Ent) (h : s.ents[j]? = som
         · split
           · exact ⟨e, h, .same⟩
           · split
-            · exact ⟨e, h, .same⟩
-            · split
-              · rename_i hauto
+            · rename_i hauto
+              split
+              · exact ⟨e, h, .same⟩
+              · rename_i htouch
                 split
                 · exact ⟨e, h, .same⟩
-                · rename_i htouch
-                  split
-                  · exact ⟨e, h, .same⟩
-                  · rename_i v hv
-                    simp only [getElem?_setUpdated, h, Option.map_some]
-                    by_cases hej : e0 = j
-                    · subst hej
-                      refine ⟨{ e with updated := some v }, by simp, ?_⟩
-                      refine .touched v hauto rfl ?_ hv
-                      simp only [Op.target, hal, hres, htouch]
-                    · exact ⟨e, by simp [hej], .same⟩
-                · rename_i htouch
-                  split
-                  · exact ⟨e, h, .same⟩
-                  · rename_i v hv
-                    simp only [getElem?_setUpdated, h, Option.map_some]
-                    by_cases hej : ent.parent = j
-                    · refine ⟨{ e with updated := some v }, by simp [hej], ?_⟩
-                      refine .touched v hauto rfl ?_ hv
-                      simp only [Op.target, hal, hres, htouch, hej]
-                    · exact ⟨e, by simp [hej], .same⟩
-              · exact ⟨e, h, .same⟩
+                · rename_i v hv
+                  simp only [getElem?_setUpdated, h, Option.map_some]
+                  by_cases hej : e0 = j
+                  · subst hej
+                    refine ⟨{ e with updated := some v }, by simp, ?_⟩
+                    refine .touched v hauto rfl ?_ hv
+                    simp only [Op.target, hal, htouch]
+                  · exact ⟨e, by simp [hej], .same⟩
+              · rename_i htouch
+                split
+                · exact ⟨e, h, .same⟩
+                · rename_i v hv
+                  simp only [getElem?_setUpdated, h, Option.map_some]
+                  by_cases hej : ent.parent = j
+                  · refine ⟨{ e with updated := some v }, by simp [hej], ?_⟩
+                    refine .touched v hauto rfl ?_ hv
+                    simp only [Op.target, hal, htouch, hej]
+                  · exact ⟨e, by simp [hej], .same⟩
+            · exact ⟨e, h, .same⟩
   | forceCreated e0 t =>
     simp only [step]
     split
@@ -191,9 +189,9 @@ theorem step_new (s : State) (op : Op) (j : Nat) (e' : Ent) (hj : s.ents.length 
               exact ⟨rfl, rfl⟩
             · rw [List.getElem?_eq_none (by simp; omega)] at h
               cases h
-  | call e0 via m inp =>
+  | call e0 via m o =>
     exfalso
-    have hlen : (step s (.call e0 via m inp)).1.ents.length = s.ents.length := by
+    have hlen : (step s (.call e0 via m o)).1.ents.length = s.ents.length := by
       simp only [step]
       repeat' split
       all_goals simp [length_setUpdated]
